@@ -86,7 +86,12 @@ func (t escapeMapping) Transform(dst, src []byte, atEOF bool) (nDst, nSrc int, e
 			n := copy(dst[nDst:], src[nSrc:nSrc+idx])
 			nDst += n
 			nSrc += n
-			if n != idx-nSrc {
+			if n != idx {
+				return nDst, nSrc, transform.ErrShortDst
+			}
+			// Never write a partial escape sequence: if there is no room for all
+			// three bytes leave the character to be consumed by the next call.
+			if len(dst)-nDst < 3 {
 				return nDst, nSrc, transform.ErrShortDst
 			}
 			c := src[nSrc]
@@ -97,9 +102,6 @@ func (t escapeMapping) Transform(dst, src []byte, atEOF bool) (nDst, nSrc int, e
 			})
 			nDst += n
 			nSrc++
-			if n != 3 {
-				return nDst, nSrc, transform.ErrShortDst
-			}
 		}
 	}
 	return
@@ -174,74 +176,51 @@ func (unescapeMapping) Span(src []byte, atEOF bool) (n int, err error) {
 
 func (t unescapeMapping) Transform(dst, src []byte, atEOF bool) (nDst, nSrc int, err error) {
 	for nSrc < len(src) {
-		idx := bytes.IndexRune(src[nSrc:], '\\')
-
-		switch {
-		case idx == -1 || (idx == len(src[nSrc:])-1 && atEOF):
-			// No unescape sequence exists, or the escape sequence is at the end but
-			// there aren't enough following characters to make it valid, so copy to
-			// the end.
-			n := copy(dst[nDst:], src[nSrc:])
-			nDst += n
-			nSrc += n
-			if nSrc < len(src) {
-				return nDst, nSrc, transform.ErrShortDst
-			}
-			return
-		case idx == len(src[nSrc:])-1:
-			// The last character is the escape char and this isn't the EOF
-			n := copy(dst[nDst:], src[nSrc:nSrc+idx])
-			nDst += n
-			nSrc += n
-			if n != idx {
-				return nDst, nSrc, transform.ErrShortDst
-			}
-			return nDst, nSrc, transform.ErrShortSrc
-		case idx == len(src[nSrc:])-2:
-			if atEOF || !ishex(src[nSrc+idx+1]) {
-				n := copy(dst[nDst:], src[nSrc:])
-				nDst += n
-				nSrc += n
-				if nSrc < len(src) {
-					return nDst, nSrc, transform.ErrShortDst
-				}
-				return
-			}
-			n := copy(dst[nDst:], src[nSrc:nSrc+idx])
-			nDst += n
-			nSrc += n
-			if n != idx {
-				return nDst, nSrc, transform.ErrShortDst
-			}
-			return nDst, nSrc, transform.ErrShortSrc
+		idx := bytes.IndexByte(src[nSrc:], '\\')
+		if idx == -1 {
+			idx = len(src) - nSrc
 		}
 
-		if shouldUnescape(src[nSrc+idx+1 : nSrc+idx+3]) {
-			n := copy(dst[nDst:], src[nSrc:nSrc+idx])
-			nDst += n
-			nSrc += n
-			if n != idx {
-				return nDst, nSrc, transform.ErrShortDst
-			}
-			if n == 0 {
-				n++
-			}
-			n = copy(dst[nDst:], []byte{
-				unhex(src[nSrc+n])<<4 | unhex(src[nSrc+n+1]),
-			})
-			nDst += n
-			nSrc += 3
-			if n != 1 {
-				return nDst, nSrc, transform.ErrShortDst
-			}
-			continue
-		}
-		n := copy(dst[nDst:], src[nSrc:nSrc+idx+1])
+		// Copy everything before the next escape character unchanged.
+		n := copy(dst[nDst:], src[nSrc:nSrc+idx])
 		nDst += n
 		nSrc += n
-		if n != idx+1 {
+		if n != idx {
 			return nDst, nSrc, transform.ErrShortDst
 		}
+		if nSrc == len(src) {
+			return nDst, nSrc, nil
+		}
+
+		// src[nSrc] is now the escape character.
+		// Decide what to do with it based on the (up to) two bytes that follow
+		// it, never looking at or consuming anything beyond them so that the
+		// result does not depend on how the input is chunked.
+		switch rem := len(src) - nSrc; {
+		case rem >= 3 && shouldUnescape(src[nSrc+1:nSrc+3]):
+			// Do not consume the escape sequence unless there is room for the
+			// character that it decodes to.
+			if nDst >= len(dst) {
+				return nDst, nSrc, transform.ErrShortDst
+			}
+			dst[nDst] = unhex(src[nSrc+1])<<4 | unhex(src[nSrc+2])
+			nDst++
+			nSrc += 3
+			continue
+		case rem < 3 && !atEOF && (rem == 1 || ishex(src[nSrc+1])):
+			// This may be the start of an escape sequence, but we can't tell
+			// until more data arrives.
+			return nDst, nSrc, transform.ErrShortSrc
+		}
+
+		// The escape character does not start a valid escape sequence, copy it
+		// through on its own.
+		if nDst >= len(dst) {
+			return nDst, nSrc, transform.ErrShortDst
+		}
+		dst[nDst] = src[nSrc]
+		nDst++
+		nSrc++
 	}
-	return
+	return nDst, nSrc, nil
 }
